@@ -53,15 +53,18 @@ def setTop (c : Ctx) (f : Frame) : Ctx :=
 
 def top? (c : Ctx) : Option Frame := c.frames.head?
 
-/-- frame completion in `execute_do`: forward the top value of the region (if any), drop the rest of
-    the region, pop the frame -/
+/-- frame completion in `execute_do`: forward the top value of the region, or nil when the region is
+    empty (nothing at all when this was the context's last frame), drop the rest of the region, pop
+    the frame -/
 def complete (c : Ctx) : Ctx :=
   match c.frames with
   | [] => c
   | f :: rest =>
     let topv := if c.vals.length ≤ f.base then none else c.vals.getLast?
     let vs := c.vals.take f.base
-    { c with frames := rest, vals := match topv with | some v => vs ++ [v] | none => vs }
+    { c with frames := rest, vals := match topv with
+        | some v => vs ++ [v]
+        | none => if rest.isEmpty then vs else vs ++ [.nil] }
 
 /-- `context::get_variable`: innermost frame first, stops at a frame that does not bubble -/
 def getVar (c : Ctx) (n : Name) : Option Val :=
